@@ -91,7 +91,7 @@ def cpuRecords (specs : List ModelSpec) (old new : Emu) (cold c : Cpu) : Except 
 /-- Records produced when the emulator goes from `old` (flushed) to `new`
     (after the handlers, before the flush). -/
 def records (old new : Emu) : Except Err (List PrvRec) :=
-  let specs := allSpecs.filter (fun s => new.enabled.contains s.char)
+  let specs := allSpecs.filter (fun s => new.enabled.contains s.char) ++ new.extra
   collect (new.threads.map (fun t => threadRecords specs (old.threads.getD t.gindex t) t) ++
            new.cpus.map (fun c => cpuRecords specs old new (old.cpus.getD c.gindex c) c))
 
